@@ -484,7 +484,7 @@ Qed.
 
 Lemma proc_step : forall P i s m o s' outs, pool_ok ld r P -> In m P -> proc_ok P i s ->
   fstep (pp i) s (ERecv m CmpOk) o = Some (s', outs) ->
-  existsb (rule_eqb QRC) (rules_of (pp i) (s1_of (pp i) s m) m) = false ->
+  (existsb (rule_eqb QRC) (rules_of (pp i) (s1_of (pp i) s m) m) = true -> is_dup s QRC (rnd (main m)) = true) ->
   step_post P i s s' outs.
 Proof.
   intros P i s m o s' outs Hp Hm Hs H Hnq.
@@ -508,7 +508,7 @@ Proof.
       * apply proc_ok_mark; try discriminate. apply proc_ok_s1; auto.
       * unfold decided. autorewrite with st. reflexivity.
     + destruct Hr as [_ Hr]. simpl in Hr. lia.
-    + rewrite Hex in Hnq. discriminate.
+    + specialize (Hnq Hex). rewrite is_dup_s1 in Hdup. congruence.
     + pose proof (po_dec _ _ _ Hp m Hm Hr) as Er.
       apply fire_jd in Ha; [|autorewrite with st; simpl; lia]. destruct Ha as [-> ->].
       apply post_jd; auto.
@@ -653,7 +653,7 @@ Ltac fld := simpl; repeat (progress (autorewrite with st; simpl)).
 Lemma seen_step : forall P i s0 s S m o s' outs,
   pool_ok ld r P -> In m P -> proc_ok P i s -> seen_ok i s0 s S ->
   fstep (pp i) s (ERecv m CmpOk) o = Some (s', outs) ->
-  existsb (rule_eqb QRC) (rules_of (pp i) (s1_of (pp i) s m) m) = false ->
+  (existsb (rule_eqb QRC) (rules_of (pp i) (s1_of (pp i) s m) m) = true -> is_dup s QRC (rnd (main m)) = true) ->
   qlen (buffer s0) (src (main m)) + length (filter (from_src (src (main m))) (S ++ [m])) <= fifo_ ->
   seen_ok i s0 s' (S ++ [m]).
 Proof.
@@ -690,7 +690,7 @@ Proof.
       eapply seen_buffered; eauto; fld; auto; try congruence.
       intros rl k Hk. dupsimp. rewrite Hk, !orb_true_r. reflexivity.
     + destruct Hr as [_ Hr]. simpl in Hr. lia.
-    + rewrite Hex in Hnq. discriminate.
+    + specialize (Hnq Hex). rewrite is_dup_s1 in Hdup. congruence.
     + apply fire_jd in Ha; [|autorewrite with st; simpl; pose proof (po_dec _ _ _ Hp m Hm Hr); lia].
       destruct Ha as [-> _].
       pose proof (quorum_pos n Hn) as Hq1.
@@ -704,7 +704,7 @@ Qed.
 
 Lemma proc_step_types : forall P i s m o s' outs, pool_ok ld r P -> In m P -> proc_ok P i s ->
   fstep (pp i) s (ERecv m CmpOk) o = Some (s', outs) ->
-  existsb (rule_eqb QRC) (rules_of (pp i) (s1_of (pp i) s m) m) = false ->
+  (existsb (rule_eqb QRC) (rules_of (pp i) (s1_of (pp i) s m) m) = true -> is_dup s QRC (rnd (main m)) = true) ->
   forall m', In m' (bcasts outs) -> ty (main m') = Prepare \/ ty (main m') = Commit \/ ty (main m') = Decided.
 Proof.
   intros P i s m o s' outs Hp Hm Hs H Hnq.
@@ -725,7 +725,7 @@ Proof.
       apply fire_qc in Ha; [|autorewrite with st; simpl; lia]. destruct Ha as [_ [_ ->]]. intros m' [].
     + apply fire_urc in Ha. destruct Ha as [_ ->]. intros m' [].
     + destruct Hr as [_ Hr]. simpl in Hr. lia.
-    + rewrite Hex in Hnq. discriminate.
+    + specialize (Hnq Hex). rewrite is_dup_s1 in Hdup. congruence.
     + apply fire_jd in Ha; [|autorewrite with st; simpl; pose proof (po_dec _ _ _ Hp m Hm Hr); lia].
       destruct Ha as [_ ->]. intros m' [].
 Qed.
@@ -758,7 +758,7 @@ Lemma ginv_deliver : forall g0 g i m o s' outs,
   ginv g0 g -> (forall j, In j R -> decided (gst g0 j) = false) ->
   In i R -> In m (pool g) ->
   fstep (pp i) (gst g i) (ERecv m CmpOk) o = Some (s', outs) ->
-  existsb (rule_eqb QRC) (rules_of (pp i) (s1_of (pp i) (gst g i) m) m) = false ->
+  (existsb (rule_eqb QRC) (rules_of (pp i) (s1_of (pp i) (gst g i) m) m) = true -> is_dup (gst g i) QRC (rnd (main m)) = true) ->
   qlen (buffer (gst g0 i)) (src (main m)) + length (filter (from_src (src (main m))) (seen g i ++ [m])) <= fifo_ ->
   ginv g0 (mkg (upd (gst g) i s') (pool g ++ bcasts outs) (upd (seen g) i (seen g i ++ [m])) (gdecs g ++ decides i outs)).
 Proof.
@@ -874,8 +874,9 @@ Proof.
   - pose proof (fifo_ok_step _ _ _ Hst Hf) as Hf1.
     destruct (IH Hf1 Hinv Hnorc Hund) as [I1 [I2 I3]].
     destruct Hst as [g i m o s' outs Hi Hm H].
-    assert (Hnq : existsb (rule_eqb QRC) (rules_of (pp i) (s1_of (pp i) (gst g i) m) m) = false).
-    { apply norc_noqrc; auto. apply (pr_round _ _ _ (gi_proc _ _ I1 i Hi)). }
+    assert (Hnq : existsb (rule_eqb QRC) (rules_of (pp i) (s1_of (pp i) (gst g i) m) m) = true ->
+                  is_dup (gst g i) QRC (rnd (main m)) = true).
+    { intro Hx. rewrite norc_noqrc in Hx; auto; [discriminate|]. apply (pr_round _ _ _ (gi_proc _ _ I1 i Hi)). }
     split; [|split].
     + eapply ginv_deliver; eauto.
       specialize (Hf i (src (main m)) Hi). simpl in Hf. rewrite upd_same in Hf. exact Hf.
@@ -954,3 +955,50 @@ Proof.
   intros i c. unfold justified, justified_preprepare, is_leader. simpl. rewrite Nat.eqb_refl. simpl.
   destruct (N.eqb v 0) eqn:E; [apply N.eqb_eq in E; contradiction | reflexivity].
 Qed.
+
+(* ------------------------------------------------------------------------------------------ *)
+(* The two reachable-state facts used in [start_ok] are invariants of [run] from [init]        *)
+
+Lemma idp_buffer : forall s t rl r, is_dup (set_buffer s t) rl r = is_dup s rl r. Proof. reflexivity. Qed.
+Lemma idp_cfr : forall s t rl r, is_dup (set_cfr s t) rl r = is_dup s rl r. Proof. reflexivity. Qed.
+Lemma idp_ppj : forall s t rl r, is_dup (set_ppj s t) rl r = is_dup s rl r. Proof. reflexivity. Qed.
+Lemma idp_input : forall s t rl r, is_dup (set_input s t) rl r = is_dup s rl r. Proof. reflexivity. Qed.
+Lemma idp_resends : forall s t rl r, is_dup (set_resends s t) rl r = is_dup s rl r. Proof. reflexivity. Qed.
+Lemma idp_started : forall s rl r, is_dup (set_started s) rl r = is_dup s rl r. Proof. reflexivity. Qed.
+Lemma idp_dead : forall s rl r, is_dup (set_dead s) rl r = is_dup s rl r. Proof. reflexivity. Qed.
+Lemma idp_round : forall s x rl r, is_dup (set_round s x) rl r = false. Proof. reflexivity. Qed.
+Ltac idp := rewrite ?is_dup_set_timer', ?is_dup_set_prepared', ?is_dup_set_decided', ?idp_buffer, ?idp_cfr, ?idp_ppj,
+  ?idp_input, ?idp_resends, ?idp_started, ?idp_dead, ?idp_round, ?is_dup_mark.
+Ltac undec Hd := unfold decided in Hd; simpl in Hd; autorewrite with st in Hd; simpl in Hd;
+  try match type of Hd with context[qcommit ?x] => fold (decided x) in Hd end.
+
+Definition dedup_fact (s : state) : Prop :=
+  decided s = false -> forall k, is_dup s QCommits k = false /\ is_dup s JustDecided k = false.
+
+Lemma dedup_fact_fstep : forall p s e o s' outs, 1 <= nodes p ->
+  dedup_fact s -> fstep p s e o = Some (s', outs) -> dedup_fact s'.
+Proof.
+  intros p s e o s' outs Hn Hs H. pose proof (quorum_pos (nodes p) Hn) as Hq. fold (qn p) in Hq.
+  unfold dedup_fact in *. destruct e.
+  - crush_fstep H; intros Hd k; undec Hd; repeat idp; auto.
+  - crush_fstep H; intros Hd k; undec Hd; repeat idp; auto.
+  - crush_fstep H; try rule_facts; intros Hd k; undec Hd; repeat idp; simpl; auto.
+    all: try (destruct (Hs Hd k) as [A B]; rewrite ?A, ?B; simpl; auto).
+    all: try congruence.
+    + exfalso. destruct Hr as [_ [_ Hr]]. apply pick_ok_spec in Heqb4. destruct Heqb4 as [_ [_ [_ K]]].
+      autorewrite with st in K. simpl in K. destruct (o_just o); [simpl in K; lia | discriminate].
+    + exfalso. apply negb_false_iff in Heqb1. unfold justified in Heqb1. rewrite Hr in Heqb1.
+      unfold justified_decided in Heqb1. apply Nat.leb_le in Heqb1.
+      destruct (just m); [unfold nsrc in Heqb1; simpl in Heqb1; lia | discriminate].
+  - crush_fstep H; intros Hd k; undec Hd; repeat idp; auto.
+Qed.
+
+Lemma dedup_fact_init : dedup_fact init.
+Proof. intros _ k. split; reflexivity. Qed.
+
+Theorem run_dedup_fact : forall p ls s, 1 <= nodes p -> run p init ls = Some s -> dedup_fact s.
+Proof.
+  intros p ls s Hn H. eapply (run_invariant p dedup_fact); [|apply dedup_fact_init|exact H].
+  intros. eapply dedup_fact_fstep; eassumption.
+Qed.
+
